@@ -1,6 +1,6 @@
 (* Proofs/RecordsLegacy.v — the legacy Conn writer for format 2: what it writes is the
-   reference encoding of [lbatch]; the timestamps it stores are right for whole-millisecond
-   times and wrong in general (defect F4). *)
+   reference encoding of [lbatch], whose records carry every input record's millisecond
+   timestamp (timestamp delta = timestamp(t_i) - timestamp(t_0)). *)
 From Coq Require Import List NArith ZArith Bool Lia.
 From Coq Require Import ZifyN ZifyNat ZifyBool.
 From KV Require Import Lib.Bits Lib.Bytes Lib.Varint Lib.Crc Spec.RecordFormat Model.Records
@@ -8,30 +8,17 @@ From KV Require Import Lib.Bits Lib.Bytes Lib.Varint Lib.Crc Spec.RecordFormat M
 Import ListNotations.
 Open Scope Z_scope.
 
-Lemma milliseconds_range d : -2147483648 <= milliseconds d <= 2147483647.
-Proof.
-  unfold milliseconds, max_timeout, min_timeout.
-  destruct (Z.ltb_spec (2147483647 * 1000000) d).
-  - vm_compute. split; discriminate.
-  - destruct (Z.ltb_spec d (-2147483648 * 1000000)).
-    + vm_compute. split; discriminate.
-    + split.
-      * change (-2147483648) with (Z.quot (-2147483648 * 1000000) 1000000). apply Z.quot_le_mono; lia.
-      * change 2147483647 with (Z.quot (2147483647 * 1000000) 1000000). apply Z.quot_le_mono; lia.
-Qed.
-
 Definition lrec (base i : Z) (m : irec) : rec2 :=
-  {| r_tsd := milliseconds (sat64 (i_ns m - base)); r_offd := i; r_key := i_key m; r_val := i_val m;
+  {| r_tsd := ts_ms (i_ns m) - ts_ms base; r_offd := i; r_key := i_key m; r_val := i_val m;
      r_hdrs := i_hdrs m |}.
 
 Lemma write_record_enc base i m :
-  wf_in m -> 0 <= i < ZM31 -> small (rec_body (lrec base i m)) ->
+  wf_in m -> 0 <= i < ZM31 -> in_i64 (ts_ms (i_ns m) - ts_ms base) -> small (rec_body (lrec base i m)) ->
   write_record base i m = enc_rec (lrec base i m) /\
   record_size base i m = zlen (rec_body (lrec base i m)).
 Proof.
-  intros (Hk & Hv & Hn & Hh) Hi Hsm.
-  assert (Ht : in_i64 (milliseconds (sat64 (i_ns m - base)))).
-  { pose proof (milliseconds_range (sat64 (i_ns m - base))). unfold in_i64, ZM63. lia. }
+  intros (Hk & Hv & Hn & Hh) Hi Ht Hsm.
+  assert (Htd : ts_delta base (i_ns m) = ts_ms (i_ns m) - ts_ms base) by (apply wrap64_id, Ht).
   assert (Hhs : Forall (fun h => write_hdr h = enc_hdr h) (i_hdrs m)).
   { eapply Forall_impl; [|exact Hh]. intros h [H1 H2]. unfold enc_hdr, write_hdr.
     rewrite put_varint_sv by (apply small_i64, H1). rewrite wb_var_bytes_enc by exact H2. reflexivity. }
@@ -39,14 +26,14 @@ Proof.
   { eapply Forall_impl; [|exact Hh]. intros h [H1 H2]. unfold enc_hdr, hdr_size, var_string_len, var_int_len.
     rewrite !zlen_app. rewrite varint_len_sv by (apply small_i64, H1). rewrite var_bytes_len_enc by exact H2. lia. }
   assert (Hsize : record_size base i m = zlen (rec_body (lrec base i m))).
-  { unfold record_size, rec_body, lrec. cbn [r_tsd r_offd r_key r_val r_hdrs]. cbn zeta.
+  { unfold record_size, rec_body, lrec. rewrite Htd. cbn [r_tsd r_offd r_key r_val r_hdrs]. cbn zeta.
     rewrite (zsum_map_ext _ _ _ Hsz). rewrite <- zlen_concat_map.
     rewrite !zlen_app, zlen_put_bes. unfold var_int_len.
     rewrite (varint_len_sv _ Ht). rewrite (varint_len_sv i) by (apply i64_of_small, Hi).
     rewrite (varint_len_sv (zlen (i_hdrs m))) by (apply small_i64, Hn).
     rewrite !var_bytes_len_enc by assumption. unfold header, obytes in *. lia. }
   split; [|exact Hsize].
-  unfold write_record, enc_rec. cbn zeta. rewrite Hsize.
+  unfold write_record, enc_rec. cbn zeta. rewrite Hsize, Htd.
   rewrite (put_varint_sv _ (small_i64 _ Hsm)). unfold rec_body, lrec.
   cbn [r_tsd r_offd r_key r_val r_hdrs].
   rewrite (concat_map_ext _ _ _ Hhs).
